@@ -266,3 +266,80 @@ void vf_harness(void) {
     planted=[('blk', r'\(k\[1\] << 12\)', '(k[1] << 11)')],
 )
 UNITS += [b64_group]   # decodeBase64 (loop contracts): not finishing yet, see below
+
+# ---------------------------------------------------------------------------------------------
+# percent-encoding: Url::decode(Url::encode(c)) == c for every byte, in both modes (whole bodies on a one-character string)
+HCPP = 'src/Http.cpp'
+url_roundtrip = Unit(
+    'Url_encode_decode_byte', 'C15',
+    cuts=[Cut('isanyof', HCPP, r'^inline bool isanyof\(char c, const char\* chars\)\s*$'), Cut('hexNibble', HCPP, r'^inline char hexNibble\(int x\)\s*$'),
+          Cut('enc', HCPP, r'^String Url::encode\(const String& q0_, bool component\)\s*$',
+              rules=[(r'#ifdef ASL_ANSI\s*String q0 = localToUtf8\(q0_\);\s*#else\s*const String& q0 = q0_;\s*#endif', '', 1), (r'String q\(q0\.length\(\), 0\);', 'g_outlen = 0;', 1),
+                     (r'q0\.length\(\)', 'in_len', None), (r'\*\(byte\*\)&q0\[i\]', '(byte)in_txt[i]', 1),
+                     (r"q << '%' << hexNibble\(c >> 4\) << hexNibble\(c & 0x0f\);", "{ OUT('%'); OUT(hexNibble(c >> 4)); OUT(hexNibble(c & 0x0f)); }", 1), (r'q << \(char\)c;', 'OUT((char)c);', 1),
+                     (r'return q;', 'return;', 1)]),
+          Cut('dec', HCPP, r'^String Url::decode\(const String& q0\)\s*$',
+              rules=[(r'\bString q;', 'g_declen = 0;', 1), (r'q0\.length\(\)', 'g_outlen', None), (r'(?<![\w.>])q0\[', 'g_out[', None),
+                     (r'q << \(char\)strtoul\(b, NULL, 16\);', 'DEC((char)vf_hex2(b));', 1), (r'q << c;', 'DEC(c);', 1),
+                     (r'#ifdef ASL_ANSI\s*return utf8ToLocal\(q\);\s*#else\s*return q;\s*#endif', 'return;', 1)])],
+    text=r'''
+#include "vf_base.h"
+/* isalnum in the C locale (ISO C 7.4.1.1), as a stub: glibc implements it with a locale table */
+static int isalnum(int c) { return (c >= '0' && c <= '9') || (c >= 'A' && c <= 'Z') || (c >= 'a' && c <= 'z'); }
+char g_out[8]; int g_outlen; char g_dec[4]; int g_declen;
+static void OUT(char c) { __CPROVER_assert(g_outlen < 7, "emit"); g_out[g_outlen++] = c; g_out[g_outlen] = 0; }
+static void DEC(char c) { __CPROVER_assert(g_declen < 3, "decode"); g_dec[g_declen++] = c; }
+#define HEXV(x) ((x) >= '0' && (x) <= '9' ? (x) - '0' : (x) >= 'a' && (x) <= 'f' ? (x) - 'a' + 10 : (x) >= 'A' && (x) <= 'F' ? (x) - 'A' + 10 : -1)
+static unsigned vf_hex2(const char* t) { int a = HEXV(t[0]), b = HEXV(t[1]); return (a >= 0 && b >= 0) ? (unsigned)(a * 16 + b) : 0u; }   /* strtoul(t, 0, 16) on two hex digits */
+static bool isanyof(char c, const char* chars) @@isanyof@@
+static char hexNibble(int x) @@hexNibble@@
+static void Url_encode(const char* in_txt, int in_len, bool component) @@enc@@
+static void Url_decode(void) @@dec@@
+char nondet_char(void); bool nondet_bool(void);
+void vf_harness(void) {
+  char c = nondet_char(); __CPROVER_assume(c != 0);
+  bool component = nondet_bool();
+  char text[2] = { c, 0 };
+  Url_encode(text, 1, component);
+  /* RFC 3986: what is not written as itself is written as "%" and two upper-case hex digits */
+  __CPROVER_assert(g_outlen == 1 || (g_outlen == 3 && g_out[0] == '%' && HEXV(g_out[1]) >= 0 && HEXV(g_out[2]) >= 0), "one byte is encoded as itself or as %XX");
+  __CPROVER_assert((g_outlen == 1) ==> ((unsigned char)c < 0x80 && c != '%' && c != ' '), "bytes >= 0x80, '%' and space are always escaped");
+  Url_decode();
+  __CPROVER_assert(g_declen == 1 && g_dec[0] == c, "Url::decode(Url::encode(c)) == c");
+  VF_CANARY();
+}
+''',
+    entry=None, unwind=26, floor=5, expect=['assertion'],
+    desc='for EVERY byte 1..255 and both modes (component / whole URL): Url::encode writes the byte as itself or as %XX, and Url::decode of that text is the byte',
+    functions=['Url::encode', 'Url::decode', 'isanyof', 'hexNibble'], trusted=['isalnum as specified for the C locale; strtoul on two hex digits'],
+)
+UNITS += [url_roundtrip]
+
+decode_hex = Unit(
+    'decodeHex', 'C15',
+    cuts=[Cut('dh', U, r'^ByteArray decodeHex\(const String& s\)\s*$',
+              rules=[(r'ByteArray a\(s\.length\(\) / 2\);', 'int a_len = g_len / 2; int a_cap = a_len > 3 ? a_len : 3;', 1), (r's\.length\(\)', 'g_len', None),
+                     (r'a\[i/2\] = \(byte\)s\.substring\(i, i \+ 2\)\.hexToInt\(\);', '{ A_AT(i / 2); SUBSTRING_PRE(g_len, i, i + 2); g_writes++; }', 1), (r'return a;', 'return;', 1)],
+              loops=[(r'for\s*\(', 0, '''
+  __CPROVER_assigns(i, g_writes)
+  __CPROVER_loop_invariant(0 <= i && i <= g_len + 1 && i % 2 == 0 && g_writes == i / 2)
+  __CPROVER_decreases(g_len + 2 - i)
+''')])],
+    text=r'''
+#include "vf_base.h"
+int g_len, g_writes;
+#define A_AT(k) __CPROVER_assert(0 <= (k) && (k) < a_len, "Array::operator[] index below length")
+#define SUBSTRING_PRE(len, i, j) __CPROVER_assert(0 <= (i) && (i) <= (j) && (j) <= (len), "String::substring(i, j) needs 0 <= i <= j <= length()")
+void decodeHex(void)
+__CPROVER_requires(0 <= g_len && g_len <= 1000000 && g_writes == 0)
+/* any text, even or odd length: every write is inside the result array, every substring inside the text; one byte per complete pair of digits */
+__CPROVER_ensures(g_writes == g_len / 2)
+__CPROVER_assigns(g_writes)
+@@dh@@
+void vf_harness(void) { decodeHex(); VF_CANARY(); }
+''',
+    entry='decodeHex',
+    desc='decodeHex for text of ANY length (odd included): array writes below its length, substring arguments inside the text, one byte per digit pair',
+    functions=['decodeHex'], trusted=['String::substring / hexToInt (strtoul) contracts'],
+)
+UNITS += [decode_hex]
